@@ -47,9 +47,9 @@ def check_seq(ctx, case):
     Z = N - P - M
     d_ref = ref.delta(pat)
     m_refs = ref.dmax_refs(P, M, Z)
-    o = util.sp(seq)
+    o = util.spw(seq, case)
     k = o.get_kappa()
-    o2 = util.sp(seq)
+    o2 = util.spw(seq, case)
     d = o2.get_delta()
     m = o2.get_deltaMax()
     cl = gens.classify(seq)
@@ -124,8 +124,9 @@ def hyp_case(draw, max_len):
         s[draw(st.integers(0, n - 1))] = mino
         if draw(st.booleans()):
             s[draw(st.integers(0, n - 1))] = draw(st.sampled_from(ref.NEUTRAL))
-        return {"seq": "".join(s)}
-    return {"seq": draw(gens.sequences(max_len=max_len))}
+        return {"seq": "".join(s), "warm": draw(gens.warmups())}
+    warm = draw(gens.warmups())
+    return {"seq": draw(gens.sequences(max_len=40 if warm else max_len)), "warm": warm}
 
 
 def parts(tier):
